@@ -40,7 +40,7 @@ Proof.
   - cbn. destruct o; try reflexivity;
       try (destruct (kind_eqb _ _ && Nat.eqb _ _); reflexivity); try (destruct (Nat.eqb _ _); reflexivity).
   - cbn [app last_thrd]. rewrite IH. fold (spawned t (past ++ [o])). fold (spawned t past). rewrite spawned_snoc.
-    destruct o as [k0 t0 h|k0 t0 h|k0 t0|pa c]; try (rewrite orb_false_r; reflexivity).
+    destruct o as [k0 t0 h|k0 t0 h|k0 t0|pa c|t0]; try (rewrite orb_false_r; reflexivity).
     + destruct (kind_eqb k0 k && Nat.eqb t0 t); [reflexivity|]. rewrite orb_false_r. reflexivity.
     + destruct (Nat.eqb c t) eqn:E.
       * rewrite orb_true_r. reflexivity.
@@ -53,7 +53,7 @@ Proof. split; intros; reflexivity. Qed.
 Lemma step_refines s past o : inv s past ->
   snd (step s o) = spec_out past o /\ inv (fst (step s o)) (past ++ [o]).
 Proof.
-  intros [Hg Ht]. destruct o as [k t h|k t h|k t|pa c]; cbn.
+  intros [Hg Ht]. destruct o as [k t h|k t h|k t|pa c|t]; cbn.
   - split; [rewrite Hg; reflexivity|]. split.
     + intros k'. rewrite last_glob_snoc. cbn. destruct (kind_eqb_spec k' k) as [->|Hne].
       * destruct (kind_eqb_spec k k); [|congruence]. destruct h; reflexivity.
@@ -76,6 +76,7 @@ Proof.
     + intros k' t'. rewrite last_thrd_snoc. cbn. destruct (Nat.eqb_spec t' c) as [->|Hne].
       * rewrite Nat.eqb_refl. reflexivity.
       * destruct (Nat.eqb_spec c t'); [congruence|]. apply Ht.
+  - split; [reflexivity|]. split; intros; [rewrite last_glob_snoc|rewrite last_thrd_snoc]; auto.
 Qed.
 
 (* the refinement theorem: every history, every thread assignment *)
@@ -99,7 +100,7 @@ Lemma kinds_independent past k t o :
   dispatch_spec k t (past ++ [o]) = dispatch_spec k t past.
 Proof.
   intros Hk Hs. unfold dispatch_spec. rewrite last_thrd_snoc, last_glob_snoc.
-  destruct o as [k0 t0 h|k0 t0 h|k0 t0|pa c]; try reflexivity.
+  destruct o as [k0 t0 h|k0 t0 h|k0 t0|pa c|t0]; try reflexivity.
   - destruct (kind_eqb_spec k0 k); [contradiction|reflexivity].
   - destruct (kind_eqb_spec k0 k); [contradiction|reflexivity].
   - destruct (Nat.eqb_spec c t); [contradiction|reflexivity].
